@@ -88,6 +88,64 @@ impl AddressLookupStream {
 //@end
 }
 
+// ---- the choice between empty() and new(): AddressLookupServices::resolve
+pub struct EndpointId { pub id: int }
+impl Clone for EndpointId { #[verifier::external_body] fn clone(&self) -> (r: EndpointId) ensures r == *self { unimplemented!() } }
+impl Copy for EndpointId {}
+pub struct EndpointData; pub struct AddrFilter;
+pub trait AddressLookup {
+    // None for publish-only services
+    fn resolve(&self, endpoint_id: EndpointId) -> Option<BoxStream<Result<Item, Error>>>;
+}
+pub struct PoisonError;
+#[verifier::external] impl core::fmt::Debug for PoisonError { fn fmt(&self, f: &mut core::fmt::Formatter<'_>) -> core::fmt::Result { Ok(()) } }
+#[verifier::external_body]
+#[verifier::reject_recursive_types(T)]
+pub struct RwLock<T> { t: core::marker::PhantomData<T> }
+// number of lookup services currently configured
+pub uninterp spec fn configured(l: RwLock<Vec<Box<dyn AddressLookup>>>) -> nat;
+pub struct ServicesGuard { pub n: nat }
+// iterator adapters over the service list: opaque (Verus has no model for filter_map/collect); lengths are unknown
+#[verifier::external_body] pub struct ServicesIter { x: u8 }
+#[verifier::external_body] #[verifier::reject_recursive_types(F)] pub struct FilterMapIter<F> { x: core::marker::PhantomData<F> }
+impl RwLock<Vec<Box<dyn AddressLookup>>> {
+    // ASSUMPTION: the lock is not poisoned
+    #[verifier::external_body]
+    pub fn read(&self) -> (r: Result<ServicesGuard, PoisonError>) ensures r matches Ok(g) && g.n == configured(*self) { unimplemented!() }
+}
+impl ServicesGuard {
+    #[verifier::external_body]
+    pub fn is_empty(&self) -> (r: bool) ensures r == (self.n == 0) { unimplemented!() }
+    #[verifier::external_body]
+    pub fn len(&self) -> (r: usize) ensures r == self.n { unimplemented!() }
+    #[verifier::external_body]
+    pub fn iter(&self) -> ServicesIter { unimplemented!() }
+}
+impl ServicesIter {
+    #[verifier::external_body]
+    pub fn filter_map<F: FnMut(&Box<dyn AddressLookup>) -> Option<BoxStream<Result<Item, Error>>>>(self, f: F) -> FilterMapIter<F> { unimplemented!() }
+}
+#[verifier::external]
+impl<F> Iterator for FilterMapIter<F> { type Item = BoxStream<Result<Item, Error>>; fn next(&mut self) -> Option<Self::Item> { unimplemented!() } }
+impl<F> FilterMapIter<F> {
+    // how many services return a stream is unknown (publish-only services return None)
+    #[verifier::external_body]
+    pub fn collect<B>(self) -> B { unimplemented!() }
+}
+//@item iroh/src/address_lookup.rs struct AddressLookupServices pubfields
+use ::std::sync::Arc;
+impl AddressLookupServices {
+//@fn iroh/src/address_lookup.rs AddressLookupServices::resolve props=C29 ret=r
+//@| ensures
+//@|     // the NoServiceConfigured failure is reserved for "no service is configured" (not "no service answered")
+//@|     r.streams is None <==> configured(*self.services) == 0,
+//@|     !r.closed, !r.did_emit, r.errors@.len() == 0,
+//@rwx D5 1
+//@- \) -> impl Stream<Item = Result<Result<Item, Error>, AddressLookupFailed>> \+ use<>
+//@+ ) -> AddressLookupStream
+//@end
+}
+
 // ---- trace lemmas over `step` (contract only)
 // after the stream has closed, every later poll yields None and changes nothing
 pub proof fn lemma_nothing_after_end(a: AddressLookupStream, b: AddressLookupStream, r: Poll<Option<Yield>>)  // [C29]
